@@ -58,9 +58,12 @@ Fixpoint decode (nsteps : nat) (l : list Z) : option (list (list grant)) :=
      holders  : who holds which room (granted and not released BY THAT HOLDER)
      credits  : requested rooms not yet granted (multiset)        -> "once per request"
      waiting  : (connection, room) requested since its last grant -> "never lost"
-     tainted  : connections one of whose reply channels was dropped (no promise to them) *)
-Record sp := { holders : list (N * N); credits : list (N * N); waiting : list (N * N); tainted : list N }.
-Definition sp0 : sp := {| holders := []; credits := []; waiting := []; tainted := [] |}.
+     deadch   : reply channels that were dropped.  A promise is owed to a connection as long as the channel
+                of its latest request is alive: when one of its channels is dropped, or it asks on a dropped
+                channel, what it was waiting for may be forgotten (waiting is emptied for it); a later request
+                on a live channel — a peer that reconnects under the same circuit id — is owed again *)
+Record sp := { holders : list (N * N); credits : list (N * N); waiting : list (N * N); deadch : list (N * N) }.
+Definition sp0 : sp := {| holders := []; credits := []; waiting := []; deadch := [] |}.
 
 Fixpoint take_one (x : N * N) (l : list (N * N)) : option (list (N * N)) :=
   match l with
@@ -78,20 +81,24 @@ Definition remove_all (x : N * N) (l : list (N * N)) : list (N * N) :=
 
 Definition sp_msg (s : sp) (m : msg) : sp :=
   match m with
-  | Request c rooms _ =>
+  | Request c rooms k =>
       {| holders := holders s; credits := map (pair c) rooms ++ credits s;
-         waiting := map (pair c) rooms ++ waiting s; tainted := tainted s |}
+         waiting := if mem_pair (c, k) (deadch s)
+                    then filter (fun x => negb (N.eqb (fst x) c)) (waiting s)
+                    else map (pair c) rooms ++ waiting s;
+         deadch := deadch s |}
   | Unlock who r =>
-      {| holders := remove_one (who, r) (holders s); credits := credits s; waiting := waiting s; tainted := tainted s |}
-  | DropChan c _ =>
-      {| holders := holders s; credits := credits s; waiting := waiting s; tainted := c :: tainted s |}
+      {| holders := remove_one (who, r) (holders s); credits := credits s; waiting := waiting s; deadch := deadch s |}
+  | DropChan c k =>
+      {| holders := holders s; credits := credits s;
+         waiting := filter (fun x => negb (N.eqb (fst x) c)) (waiting s); deadch := (c, k) :: deadch s |}
   end.
 Definition sp_grant (s : sp) (g : grant) : option sp :=
   let '(c, _, r) := g in
   match take_one (c, r) (credits s) with
   | None => None                                      (* granted without a request: "once" violated *)
   | Some cr => Some {| holders := (c, r) :: holders s; credits := cr;
-                       waiting := remove_all (c, r) (waiting s); tainted := tainted s |}
+                       waiting := remove_all (c, r) (waiting s); deadch := deadch s |}
   end.
 Fixpoint sp_grants (s : sp) (gs : list grant) : option sp :=
   match gs with
@@ -104,10 +111,10 @@ Fixpoint nodupN (l : list N) : bool :=
 (* exclusive and bounded *)
 Definition sp_safe (max : nat) (s : sp) : bool :=
   nodupN (map snd (holders s)) && Nat.leb (length (holders s)) max.
-(* never lost: a waiting request of an untainted connection is blocked only by a held room or
+(* never lost: a request that is owed (see deadch above) is blocked only by a held room or
    by the limit *)
 Definition sp_live (max : nat) (s : sp) : bool :=
-  forallb (fun x => memN (fst x) (tainted s) || memN (snd x) (map snd (holders s)) || Nat.leb max (length (holders s)))
+  forallb (fun x => memN (snd x) (map snd (holders s)) || Nat.leb max (length (holders s)))
           (waiting s).
 
 (* (safe, live) over the whole history *)
@@ -273,7 +280,7 @@ Definition csp_event (hidden : option N) (max : nat) (s : csp) (e : cev) (gs : l
               | _ => true
               end in
   let s1 := match e with
-            | CTake c => if live c then set_inbox s c (tl (inbox_of s c)) else s
+            | CTake c | CTakeFail c => if live c then set_inbox s c (tl (inbox_of s c)) else s
             | CEnd c => {| cs_inbox := cs_inbox s; cs_ended := c :: cs_ended s; cs_tasks := cs_tasks s |}
             | _ => s
             end in
@@ -295,7 +302,8 @@ Definition spec_conn (hidden : option N) (max : nat) (es : list cev) (obs : list
 Definition hide1 (gs : list grant) : list grant := filter (fun g => negb (N.eqb (fst (fst g)) 1)) gs.
 Definition run_loop (max : nat) (es : list cev) : list Z :=
   flat_map (fun y : cst * list msg * list (list grant) =>
-              enc_step (hide1 (sort_g (concat (snd y)))) ++ enc_pairs (running (fst (fst y))))
+              enc_step (hide1 (sort_g (concat (snd y)))) ++
+              enc_pairs (filter (fun p => negb (N.eqb (fst p) 1)) (running (fst (fst y)))))
            (crun (cinit max) es).
 
 (* known class at connection level, by its cause:
